@@ -57,10 +57,17 @@ def run_check(prop, tier, replay=None):
             ctx.broken("audit:" + p[:60], p, "proof audit failed: " + p)
     # 4. correspondence (always runs if the driver exists: it is also the search for a failing input)
     if all(ctx.lean_target_ok.get(e) for e in exes):
-        if replay is not None and hasattr(mod, "replay_case") and replay.get("case"):
-            mod.replay_case(ctx, replay)      # re-run exactly the recorded case on model and implementation
-        else:
-            mod.correspond(ctx)
+        try:
+            if replay is not None and hasattr(mod, "replay_case") and replay.get("case"):
+                mod.replay_case(ctx, replay)      # re-run exactly the recorded case on model and implementation
+            else:
+                mod.correspond(ctx)
+        except Exception as ex:       # a crash of the machinery must never look like a pass (nor lose what was found so far)
+            import traceback
+            tb = traceback.format_exc()
+            ctx.log("correspondence step crashed:", repr(ex))
+            ctx.broken("check-exception", "correspondence machinery of %s (%s)" % (prop, type(ex).__name__),
+                       "the correspondence step raised %r: the property is not shown to hold on this tree" % (ex,), detail=tb[-3000:])
     else:
         ctx.log("model driver unavailable; implementation-side oracle only")
         if hasattr(mod, "impl_only"):
